@@ -2,14 +2,14 @@
 CONSTANTS
   Orig = {}
   PoolSizes = {1, 2, 3}
-  Lens = {3, 5, 7, 8}
+  Lens = {3, 7, 8}
   Modes = {"static", "auto", "chunk"}
   Chunks = {1, 2}
   MaxThreads = {1, 2, 3, 5}
   Waits = {TRUE, FALSE}
   Grans = {1, 3}
   MinItems = {1, 2}
-  Reuses <- ReuseTwo
+  Reuses <- ReuseOne
   InPool = TRUE
   SeqOnly = FALSE
 SPECIFICATION Spec
